@@ -3,7 +3,7 @@ from __future__ import annotations
 
 import ast
 
-from sa.loader import norm, norm1, walk_shallow, own_nodes, call_name, AnalysisError
+from sa.loader import recv, norm, norm1, walk_shallow, own_nodes, call_name, AnalysisError
 from sa.absval import Interp, weak_orderings3
 from sa.tables import fold, Unfoldable
 from sa.rulekit import (nodes_calling, node_calls, nodes_where, return_nodes, own, is_const,
